@@ -457,3 +457,9 @@ func IMod(p, q Poly) Poly {
 	}
 	return Poly{t: map[string]int64{name: 1}}
 }
+
+// IsStructAtom reports whether name denotes a derived atom (unravelled index, quotient, remainder).
+func IsStructAtom(name string) bool {
+	_, ok := structAtoms[name]
+	return ok
+}
